@@ -569,6 +569,8 @@ def gen_perturbation(ch, m, mode, harsh):
     for k in ('min', 'max', 'scaled', 'step'):
         spec.pop(k, None)
     nom = float(nominal_of(m, spec))
+    if not math.isfinite(nom):
+        return None
     spec['nominal'] = nom
     t = spec['type']
     if t in ('radius',):
